@@ -60,11 +60,15 @@ RECURSIVE Conf(_, _, _, _, _)
 IsSeqVal(v, o, atU) == v.p = "list" \/ (v.p = "tuple" /\ ~(atU /\ o.tuples))
 IsHint(v, o) == o.tuples /\ v.p = "tuple" /\ Len(v.it) = 2 /\ v.it[1].p = "str"
 Loose(o) == "loose" \in DOMAIN o /\ o.loose
+\* writer-side strictness: "lax" (default) | "strict" (the record has exactly the schema's fields) |
+\* "sad" = strict_allow_default (no extra key; a field may be absent only when it has a default)
+WMode(o) == IF "wmode" \in DOMAIN o THEN o.wmode ELSE "lax"
 
 FieldConf(f, v, names, o) ==
   IF HasKey(v, f.name) THEN Conf(f.type, ValAt(v, f.name), names, o, FALSE)
+  ELSE IF WMode(o) = "strict" THEN FALSE
   ELSE IF f.hasdef THEN Conf(f.type, DefVal(f.def), names, o, FALSE)
-  ELSE ~o.strict /\ Conf(f.type, VNone, names, o, FALSE)
+  ELSE WMode(o) = "lax" /\ ~o.strict /\ Conf(f.type, VNone, names, o, FALSE)
 
 Conf(t0, v0, names, o, atU) ==
   LET t == Deref(t0, names)
@@ -90,6 +94,8 @@ Conf(t0, v0, names, o, atU) ==
     [] t.k = "record" -> /\ v.p = "dict"
                          /\ (HasKey(v, K_dashtype) => ValAt(v, K_dashtype) = VStr(t.name))
                          /\ \A i \in 1..Len(t.fields) : FieldConf(t.fields[i], v, names, o)
+                         /\ (WMode(o) # "lax" => \A i \in 1..Len(v.ks) :
+                                v.ks[i].p = "str" /\ \E j \in 1..Len(t.fields) : t.fields[j].name = v.ks[i].cp)
     [] t.k = "union" ->
          IF IsHint(v, o)
          THEN \E i \in 1..Len(t.br) :
